@@ -274,3 +274,11 @@ def c20(tier, seed):
 
 
 CHECKS.update({"C20": c20})
+
+
+def c07(tier, seed):
+    import c07 as m
+    return m.run(tier, seed)
+
+
+CHECKS.update({"C07": c07})
